@@ -101,6 +101,49 @@ Inductive enc_flag_list : val -> list byte -> Prop :=
 (* ---------------------------------------------------------------- RFC 3501 7.4.2: FETCH data items
    msg-att-static / msg-att-dynamic as far as the round-trip theorems reach today (BODY, BODYSTRUCTURE, BODY[...]
    and X-GM-LABELS are covered by the differential checks only) *)
+(* X-GM-LABELS (Gmail IMAP extensions): "(" [label *(SP label)] ")", a label being an atom, a "\" atom (system label) or a
+   quoted string *)
+Inductive enc_label : list byte -> list byte -> Prop :=
+| label_flag f w : enc_flag f w -> enc_label f w
+| label_quoted s w : enc_quoted s w -> utf8_valid s = true -> enc_label s w.
+Inductive enc_labels_more : list val -> list byte -> Prop :=
+| labels_more_nil : enc_labels_more [] []
+| labels_more_cons f w l ws : enc_label f w -> enc_labels_more l ws -> enc_labels_more (VBytes f :: l) (SPb ++ w ++ ws).
+Inductive enc_label_list : val -> list byte -> Prop :=
+| label_list_empty : enc_label_list (VList []) [40; 41]
+| label_list_some f w l ws : enc_label f w -> enc_labels_more l ws -> enc_label_list (VList (VBytes f :: l)) ([40] ++ w ++ ws ++ [41]).
+
+(* section = "[" [section-spec] "]" (RFC 3501 9): section-spec = section-msgtext / (section-part ["." section-text]);
+   section-msgtext = "HEADER" / "HEADER.FIELDS" [".NOT"] SP header-list / "TEXT"; section-text = section-msgtext / "MIME";
+   section-part = number *("." number).  The header list is not kept: both HEADER forms are MessageSection::Header *)
+Inductive enc_header_names : list byte -> Prop :=
+| hn_one s w : enc_astring s w -> enc_header_names w
+| hn_more s w ws : enc_astring s w -> enc_header_names ws -> enc_header_names (w ++ SPb ++ ws).
+Inductive enc_msgtext : val -> list byte -> Prop :=
+| mt_header k : kw "HEADER" k -> enc_msgtext (VCon "MessageSection::Header" []) k
+| mt_text k : kw "TEXT" k -> enc_msgtext (VCon "MessageSection::Text" []) k
+| mt_fields k n hl : kw "HEADER.FIELDS" k -> n = [] \/ kw ".NOT" n -> enc_header_names hl ->
+    enc_msgtext (VCon "MessageSection::Header" []) (k ++ n ++ SPb ++ [40] ++ hl ++ [41]).
+Inductive enc_section_text : val -> list byte -> Prop :=
+| st_msgtext m w : enc_msgtext m w -> enc_section_text m w
+| st_mime k : kw "MIME" k -> enc_section_text (VCon "MessageSection::Mime" []) k.
+Inductive enc_part_more : list val -> list byte -> Prop :=
+| part_more_nil : enc_part_more [] []
+| part_more_cons n w l ws : enc_number 32 n w -> enc_part_more l ws -> enc_part_more (VNum n :: l) ([46] ++ w ++ ws).
+Inductive enc_section_spec : val -> list byte -> Prop :=
+| ss_full m w : enc_msgtext m w -> enc_section_spec (VCon "SectionPath::Full" [m]) w
+| ss_part n w l ws : enc_number 32 n w -> enc_part_more l ws ->
+    enc_section_spec (VCon "SectionPath::Part" [VList (VNum n :: l); VNone]) (w ++ ws)
+| ss_part_text n w l ws t wt : enc_number 32 n w -> enc_part_more l ws -> enc_section_text t wt ->
+    enc_section_spec (VCon "SectionPath::Part" [VList (VNum n :: l); VSome t]) (w ++ ws ++ [46] ++ wt).
+Inductive enc_section : val -> list byte -> Prop :=
+| section_empty : enc_section VNone [91; 93]
+| section_spec sp w : enc_section_spec sp w -> enc_section (VSome sp) ([91] ++ w ++ [93]).
+(* the origin octet of a partial fetch: "<" number ">" *)
+Inductive enc_origin : val -> list byte -> Prop :=
+| origin_none : enc_origin VNone []
+| origin_some n w : enc_number 32 n w -> enc_origin (VSome (VNum n)) ([60] ++ w ++ [62]).
+
 Inductive enc_msg_att : val -> list byte -> Prop :=
 | att_envelope k e w : kw "ENVELOPE " k -> enc_envelope e w -> enc_msg_att (VCon "AttributeValue::Envelope" [e]) (k ++ w)
 | att_uid k n w : kw "UID " k -> enc_number 32 n w -> enc_msg_att (VCon "AttributeValue::Uid" [VNum n]) (k ++ w)
@@ -114,7 +157,11 @@ Inductive enc_msg_att : val -> list byte -> Prop :=
 | att_msgid k n w : kw "X-GM-MSGID " k -> enc_number 64 n w -> enc_msg_att (VCon "AttributeValue::GmailMsgId" [VNum n]) (k ++ w)
 | att_flags k v w : kw "FLAGS " k -> enc_flag_list v w -> enc_msg_att (VCon "AttributeValue::Flags" [v]) (k ++ w)
 | att_date k s w : kw "INTERNALDATE " k -> enc_string s w -> utf8_valid s = true ->     (* date-time is a quoted string; the text is returned as sent *)
-    enc_msg_att (VCon "AttributeValue::InternalDate" [VBytes s]) (k ++ w).
+    enc_msg_att (VCon "AttributeValue::InternalDate" [VBytes s]) (k ++ w)
+| att_labels k v w : kw "X-GM-LABELS " k -> enc_label_list v w -> enc_msg_att (VCon "AttributeValue::GmailLabels" [v]) (k ++ w)
+| att_body_section k sec wsec idx widx v w : kw "BODY" k -> enc_section sec wsec -> enc_origin idx widx -> enc_nstring v w ->
+    enc_msg_att (VRec "AttributeValue::BodySection" [("section"%string, sec); ("index"%string, idx); ("data"%string, v)])
+                (k ++ wsec ++ widx ++ SPb ++ w).
 
 Inductive enc_att_more : list val -> list byte -> Prop :=
 | att_more_nil : enc_att_more [] []
